@@ -198,6 +198,17 @@ func (in *Interp) wrap(l Lin, t types.Type) Lin {
 	v := in.p.newIVar("wrap", lo, hi)
 	src := l
 	v.deps = varsOf(src)
+	if bk == types.Int || bk == types.Int64 {
+		v.eval = func(m *Model) int64 { return m.lin(src) } // int64 arithmetic wraps by itself
+	} else if bk == types.Int32 {
+		v.eval = func(m *Model) int64 { return int64(int32(m.lin(src))) }
+	} else if bk == types.Uint8 {
+		v.eval = func(m *Model) int64 { return int64(uint8(m.lin(src))) }
+	} else if bk == types.Uint16 {
+		v.eval = func(m *Model) int64 { return int64(uint16(m.lin(src))) }
+	} else if bk == types.Uint32 {
+		v.eval = func(m *Model) int64 { return int64(uint32(m.lin(src))) }
+	}
 	v.def = func(r *renderer) string {
 		return "(- (mod (+ " + r.lin(src) + " " + off + ") " + mod + ") " + off + ")"
 	}
@@ -214,8 +225,9 @@ func varsOf(l Lin) []int {
 }
 
 // nonlin creates a defined variable for a non-linear integer operation.
-func (in *Interp) nonlin(name string, lo, hi int64, deps []Lin, def func(r *renderer) string) Lin {
+func (in *Interp) nonlin(name string, lo, hi int64, deps []Lin, def func(r *renderer) string, eval func(m *Model) int64) Lin {
 	v := in.p.newIVar(name, lo, hi)
+	v.eval = eval
 	for _, d := range deps {
 		v.deps = append(v.deps, varsOf(in.p.resLin(d))...)
 	}
@@ -259,6 +271,13 @@ func (in *Interp) byteToLin(b byteVal) Lin {
 	id := b.atom
 	v.depsNF = []NF{{{atom: id}}}
 	v.def = func(r *renderer) string { return "(str.to_code " + r.nf(NF{{atom: id}}) + ")" }
+	v.eval = func(m *Model) int64 {
+		s := m.atomVal(id)
+		if len(s) != 1 {
+			return -1
+		}
+		return int64(s[0])
+	}
 	in.p.depVar[v.id] = true
 	in.p.depAtom[id] = true
 	in.p.byteVars[b.atom] = v.id
@@ -319,7 +338,7 @@ func (in *Interp) binop(op token.Token, x, y Value, t types.Type) Value {
 			}
 			return IntV{in.wrap(in.nonlin("mul", lo, hi, []Lin{al, bl}, func(r *renderer) string {
 				return "(* " + r.lin(al) + " " + r.lin(bl) + ")"
-			}), t)}
+			}, func(m *Model) int64 { return m.lin(al) * m.lin(bl) }), t)}
 		case token.QUO, token.REM:
 			if bl.isConst() && bl.c == 0 {
 				in.panicGo("runtime error: integer divide by zero")
@@ -349,7 +368,7 @@ func (in *Interp) binop(op token.Token, x, y Value, t types.Type) Value {
 					return IntV{in.nonlin("quo", lo, hi, []Lin{al}, func(r *renderer) string {
 						x := r.lin(al)
 						return fmt.Sprintf("(ite (>= %s 0) (div %s %d) (- (div (- %s) %d)))", x, x, c, x, c)
-					})}
+					}, func(m *Model) int64 { return m.lin(al) / c })}
 				}
 				lo, hi := int64(0), c-1
 				if alo < 0 {
@@ -361,7 +380,7 @@ func (in *Interp) binop(op token.Token, x, y Value, t types.Type) Value {
 				return IntV{in.nonlin("rem", lo, hi, []Lin{al}, func(r *renderer) string {
 					x := r.lin(al)
 					return fmt.Sprintf("(ite (>= %s 0) (mod %s %d) (- (mod (- %s) %d)))", x, x, c, x, c)
-				})}
+				}, func(m *Model) int64 { return m.lin(al) % c })}
 			}
 			in.unsupported("division by symbolic or negative divisor")
 		case token.EQL, token.NEQ, token.LSS, token.LEQ, token.GTR, token.GEQ:
